@@ -61,13 +61,22 @@ pub fn json_to_value(j: &J) -> Option<Value> {
 
 /// Canonical (sign, mantissa, scale) of a JSON number: no trailing zeros in the fraction, zero unsigned.
 fn canon_num(a: &[J]) -> Option<(bool, u128, u64)> {
-    let mut m = limbs_to_u128(a[2].as_array()?)?;
+    // trailing zeros are dropped on the digit string first: a specified result such as 9223372036854775810.00000000000000000000 has a
+    // mantissa beyond u128 before it is canonical
+    let limbs = a[2].as_array()?;
+    let mut digits = String::new();
+    for (k, l) in limbs.iter().enumerate().rev() {
+        let v = l.as_u64()?;
+        if k == limbs.len() - 1 { digits.push_str(&v.to_string()) } else { digits.push_str(&format!("{:04}", v)) }
+    }
     let mut s = a[3].as_u64()?;
-    while s > 0 && m % 10 == 0 {
-        m /= 10;
+    while s > 0 && digits.ends_with('0') {
+        digits.pop();
         s -= 1;
     }
-    Some((a[1].as_bool()? && m != 0, m, s))
+    let digits = digits.trim_start_matches('0');
+    let m: u128 = if digits.is_empty() { 0 } else { digits.parse().ok()? };
+    Some((a[1].as_bool()? && m != 0, m, if m == 0 { 0 } else { s }))
 }
 
 /// The engine's structural equality on the JSON encoding: numbers numerically, everything else by structure.
